@@ -3,7 +3,7 @@ import itertools
 
 SCHEMES = ['http', 'HTTP', 'https', 'ftp', 'ws', 'wss', 'gopher']
 USERINFO = ['', 'u@', 'u:p@', '%41:p%40@', 'a%3ab:c%2fd@', ':@', 'ü:é@', ':é@', ':%FFs@', ':p€@',
-            '€@', '%e2%82%ac:@']
+            '€@', '%e2%82%ac:@', 'a%2541@', 'u:p%2541%25@', 'a%25:%@']
 HOSTS = ['a', 'A.TEST', 'a.', 'ａ.test', 'ß.test', 'xn--bcher-kva.test', '0x7f.1', '０x7f',
          '１２７.1', '127.0.0.1', '2130706433', '017700000001', '0177.0.0.1', '1.2.3', '[::1]',
          '[0:0:0:0:0:0:0:1]', '[::ffff:1.2.3.4]', '[::FFFF:102:304]', '0x7F.0.0.1',
